@@ -44,8 +44,10 @@ func LoadIndex(idx index.Index, r io.Reader, opts ...Option) error {
 	// Parse Options.
 	o := ApplyOptions(opts...)
 
+	// All reads must go through reader: for a plain io.Reader it is what keeps track of the
+	// offset, which is how section offsets are learnt.
 	reader := internalio.ToByteReadSeeker(r)
-	pragma, err := carv1.ReadHeader(r, o.MaxAllowedHeaderSize)
+	pragma, err := carv1.ReadHeader(reader, o.MaxAllowedHeaderSize)
 	if err != nil {
 		return fmt.Errorf("error reading car header: %w", err)
 	}
@@ -57,7 +59,7 @@ func LoadIndex(idx index.Index, r io.Reader, opts ...Option) error {
 	case 2:
 		// Read V2 header which should appear immediately after pragma according to CARv2 spec.
 		var v2h Header
-		_, err := v2h.ReadFrom(r)
+		_, err := v2h.ReadFrom(reader)
 		if err != nil {
 			return err
 		}
